@@ -18,7 +18,7 @@ def split_numeric(o, value):
     return skel, terms
 
 
-def compare_outputs(o1, o2, prefix="", wrong=False, ignore_attrs=(), skip_root=False):
+def compare_outputs(o1, o2, prefix="", wrong=False, ignore_attrs=(), skip_root=False, ground_tol=None):
     """obligations stating that two parsed outputs are the same document: same element sequence, same attribute names,
     same non-numeric text, and every number equal as a term for all values"""
     obls = []
@@ -54,6 +54,10 @@ def compare_outputs(o1, o2, prefix="", wrong=False, ignore_attrs=(), skip_root=F
                 if x == y and not term_refs(x):
                     obls.append(Obl(f"{prefix}{tag}[{i}].{k}", PASS, ground=True))
                     continue
+                if ground_tol is not None and not term_refs(x) and not term_refs(y):
+                    # two concrete numbers: equal up to the stated output rounding
+                    obls.append(Obl(f"{prefix}{tag}[{i}].{k}", not_(near(x, y, ground_tol)), ground=True, note=f"{va!r} vs {vb!r}"))
+                    continue
                 if wrong and not flipped and term_refs(x):
                     y = plus(y, "1.0")
                     flipped = True
@@ -69,4 +73,8 @@ def compare_outputs(o1, o2, prefix="", wrong=False, ignore_attrs=(), skip_root=F
                     obls.append(Obl(f"{prefix}{tag}[{i}].text-number", ne(x, y)))
                 if not ta:
                     obls.append(Obl(f"{prefix}{tag}[{i}].text", PASS, ground=True))
+        # character data following the element (inside its parent): e.g. text after a child element or after a comment
+        ya, yb = " ".join((a.tail or "").split()), " ".join((b.tail or "").split())
+        if ya or yb:
+            obls.append(Obl(f"{prefix}{tag}[{i}].following-text", PASS if ya == yb else FAIL, ground=True, note=f"{ya!r} vs {yb!r}"))
     return obls
